@@ -166,7 +166,10 @@ def check(ctx):
         # compile a sample of generated Go test files against their package
         ops = C.hcorr("tg", "gen", ["-seed", str(ctx.seed + 7), "-tier", "quick", "-stream", "core"])
         nvet = 0
-        for op in ops[::2][: (6 if ctx.tier == "quick" else 40)]:
+        nsample = 6 if ctx.tier == "quick" else 40
+        go_ops = [o for o in ops if o.split()[1] == "go"]
+        largest = sorted(go_ops, key=len, reverse=True)[: max(2, nsample // 4)]       # the packages with the most tests first
+        for op in largest + [o for o in go_ops if o not in largest][: nsample - len(largest)]:
             mode, fs = case_files(op)
             if not any(n.endswith(".go") and not n.endswith("_test.go") for n, _, _ in fs):
                 continue
